@@ -52,7 +52,7 @@ SEL_C07 = LEAF + [(G, CNT), (G, r'(count_byte_by_byte|count_hits|Iter::count)'),
                   (X86, LEMMAS), (SWAR, CNT), (SWAR, r'OneIter::count'), (SWAR, LEMMAS), (DISP, r'count_raw(::.*)?'),
                   (TOP, r'(count_raw|Memchr::count)')]
 SEL_C06 = LEAF + [(G, r'Iter::.*'), (X86, ITERS), (X86, S + r'iter'), (SWAR, ITERS), (SWAR, S + r'iter'),
-                  (TOP, r'(Memchr|Memchr2|Memchr3)::.*'), (TOP, r'memchr[23]?_iter'), (r'^hist$', r'.*')]
+                  (TOP, r'(Memchr|Memchr2|Memchr3)::.*'), (TOP, r'mem(r)?chr[23]?_iter'), (r'^vbase::revx$', r'.*'), (r'^hist$', r'.*')]
 PTR_MODS = [G, X86, SWAR, DISP, TOP, EQ, RK, GPP, XPP, APP, r'^ext$', r'^vector$', PRE]
 SEL_C05 = [(m, r'.*') for m in PTR_MODS]
 SEL_RK_F = [(RK, r'(Finder::(new|find|find_raw)|Hash::.*|is_fast|is_equal_raw)'), (RK, LEMMAS), (EQ, r'.*')]
